@@ -45,7 +45,7 @@ BAD_MARKER = (b'\xff' * 5 + b'\x00' + b'\xff' * 10) + struct.pack('!HB', 19, 4)
 def gen_case(r: random.Random, idx: int):
     mode = r.choice(['active', 'active', 'passive', 'both'])
     our_rid = r.choice(['10.0.0.1', '200.0.0.1'])
-    H = r.choice([3, 6, 90])
+    H = r.choice([3, 6, 90, 0])  # 0: no hold timer, no periodic KEEPALIVE - the KEEPALIVE which confirms the OPEN is still owed
     cfg = {
         'las': 65000,
         'pas': 65001,
@@ -59,7 +59,7 @@ def gen_case(r: random.Random, idx: int):
         'adjin': True,
     }
     peer_rid = r.choice(['10.0.0.2', '9.9.9.9', '250.1.1.1'])
-    o = {'rid': peer_rid, 'hold': r.choice([H, 90, 3])}
+    o = {'rid': peer_rid, 'hold': r.choice([H, 90, 3, 0])}
     steps = []
     kinds = []
     episodes = r.randrange(1, 5)
@@ -116,7 +116,7 @@ def gen_case(r: random.Random, idx: int):
             elif ev == 'silence-read-timeout':
                 steps.append(['sleep', r.choice([0.09, 0.1, 0.15, 0.25])])
             elif ev == 'silence-hold':
-                steps.append(['sleep', min(H, 6) + r.choice([-0.5, 0.5, 1.5])])
+                steps.append(['sleep', (min(H, 6) or 3) + r.choice([-0.5, 0.5, 1.5])])
             elif ev == 'collision':
                 if cfg['listen']:
                     steps.append(['connect'])
